@@ -2,6 +2,7 @@
 matrices produced by the real code.  The universally quantified object is the coefficient
 vector: full column rank <=> (exists c != 0: X c = 0) is unsat; span inclusion <=> (exists C:
 X C = R) is sat (the model is a witness and is re-checked in exact rational arithmetic)."""
+import os
 import time
 from fractions import Fraction
 
@@ -14,6 +15,7 @@ class LinStats:
         self.queries = 0
         self.solver_s = 0.0
         self.unknown = 0
+        self.cross = {"checked": 0, "agree": 0, "disagree": 0, "unknown": 0}
 
 
 STATS = LinStats()
@@ -63,6 +65,9 @@ def _solver(timeout_ms):
     return s
 
 
+CROSS_RATE = int(os.environ.get("VERIF_CROSS_RATE", "0")) * 40  # thorough tier: every 200th LRA query
+
+
 def _check(s):
     t0 = time.time()
     r = str(s.check())
@@ -70,7 +75,33 @@ def _check(s):
     STATS.solver_s += time.time() - t0
     if r == "unknown":
         STATS.unknown += 1
+    elif CROSS_RATE and STATS.queries % CROSS_RATE == 0:
+        _cross(s, r)
     return r
+
+
+def _cross(s, answer):
+    """re-decide one query with the independent z3 4.8.12 binary"""
+    import subprocess
+    import tempfile
+
+    with tempfile.NamedTemporaryFile("w", suffix=".smt2", delete=False) as f:
+        f.write("(set-logic QF_LRA)\n" + s.to_smt2())
+        path = f.name
+    try:
+        out = subprocess.run(["/usr/bin/z3", "-T:30", path], capture_output=True, text=True, timeout=40).stdout.strip().splitlines()
+        ans = out[0] if out else ""
+        STATS.cross["checked"] += 1
+        if ans == answer:
+            STATS.cross["agree"] += 1
+        elif ans in ("sat", "unsat"):
+            STATS.cross["disagree"] += 1
+        else:
+            STATS.cross["unknown"] += 1
+    except Exception:  # noqa
+        STATS.cross["unknown"] += 1
+    finally:
+        os.unlink(path)
 
 
 def full_column_rank(X, timeout_ms=60000):
